@@ -98,6 +98,19 @@ def cases(tier, variants):
                     for m in (1, 3, 8):
                         yield dict(part="trace", var=v, kind="softw", n=n, inst=var, sv=sv,
                                    maxcor=m, maxls=1)
+        # start lattice for Rosenbrock (n = 2: 9 x 9 points of [-2, 2]^2, n = 3: 5^3): the
+        # early line searches extrapolate (steps > 1) from some of them
+        g9 = [-2.0 + 0.5 * i + 0.013 * (v + 1) for i in range(9)]
+        for a_ in g9:
+            for b_ in g9:
+                yield dict(part="trace", var=v, kind="rosen", n=2, inst=0, sv=0, maxcor=3,
+                           x0=[a_, b_ * 0.97])
+        g5 = g9[::2]
+        for a_ in g5:
+            for b_ in g5:
+                for c_ in g5:
+                    yield dict(part="trace", var=v, kind="rosen", n=3, inst=0, sv=0, maxcor=3,
+                               x0=[a_, b_ * 0.97, c_ * 1.03])
         for a in (4.0, 50.0):
             for rho in (3e-5, 3e-4, 5e-4, 9e-4, 1.1e-3, 2e-3, 1e-2, 0.1, 0.3):
                 for n in (1, 2):
@@ -228,6 +241,8 @@ def run(case):
         if part == "trace":
             f, g = inst(case["kind"], case["n"], case["inst"])
             x0 = start(case["n"], case["sv"], case["var"])
+            if case.get("x0") is not None:
+                x0 = np.array(case["x0"], dtype=float)
             if case.get("xscale"):
                 sg, f_, g_ = case["xscale"], f, g
                 f = lambda x: f_(x / sg)          # noqa: E731
